@@ -2371,6 +2371,18 @@ fn gen_c49(seed: u64, tier: Tier) -> Plan {
     for _ in 0..n {
         let k = g.r.pick_weighted(&[16, 50, 8, 3, 3, 2, 7, 8, 2, 2, 5]);
         let (u, name, is_person) = accts[g.r.below(accts.len() as u64) as usize].clone();
+        // the built-in anonymous account has a validity window too: its window is closed and
+        // reopened, and the token it was issued at the start is presented again
+        if g.r.chance(1, 10) {
+            match g.r.below(5) {
+                0 => g.push(Ev::Window { u: UUID_ANONYMOUS, from: None, to: None }),
+                1 => g.push(Ev::Window { u: UUID_ANONYMOUS, from: None, to: Some(now - DAY) }),
+                2 => g.push(Ev::Window { u: UUID_ANONYMOUS, from: Some(now + DAY), to: None }),
+                3 => g.push(Ev::Try { path: "token_present".into(), target: UUID_ANONYMOUS, name: "anonymous".into(), sec: Sec::Ref("uat:anon".into()), by: None, app: None }),
+                _ => g.push(Ev::Try { path: "ldap_token_search".into(), target: UUID_ANONYMOUS, name: "anonymous".into(), sec: Sec::Ref("uat:anon".into()), by: None, app: None }),
+            }
+            continue;
+        }
         match k {
             0 => {
                 let (from, to) = match g.r.below(14) {
